@@ -205,7 +205,7 @@ func c16Round4(c *Ctx) {
 		c.Analysed[fname(fn)] = true
 		ok := true
 		site := c.P.Pos(fn.Pos())
-		for _, b := range fn.Blocks {
+		for _, b := range blocksIP(fn) {
 			for _, in := range b.Instrs {
 				st, isStore := in.(*ssa.Store)
 				if !isStore {
@@ -318,7 +318,7 @@ func c16BodyKinds(c *Ctx) {
 			fld string
 		}
 		var sites []site
-		for _, b := range fn.Blocks {
+		for _, b := range blocksIP(fn) {
 			for _, in := range b.Instrs {
 				var ptr ssa.Value
 				switch x := in.(type) {
@@ -561,7 +561,7 @@ func c16CheckTxMeta(c *Ctx) {
 	const resT = "runtime/host/protocol.CheckTxResult"
 	var targets []ssa.Instruction
 	cut := NewCut()
-	for _, b := range fn.Blocks {
+	for _, b := range blocksIP(fn) {
 		for _, in := range b.Instrs {
 			switch x := in.(type) {
 			case *ssa.Call:
@@ -692,7 +692,7 @@ func c16Snapshots(c *Ctx) {
 		} else {
 			cut := nonNilCut(fn, func(s ssa.Value) bool { return s == cur })
 			var derefs []ssa.Instruction
-			for _, b := range fn.Blocks {
+			for _, b := range blocksIP(fn) {
 				for _, in := range b.Instrs {
 					if fa, ok := in.(*ssa.FieldAddr); ok && fa.X == cur {
 						derefs = append(derefs, in)
@@ -747,7 +747,7 @@ func c19ResultFields(c *Ctx) {
 	}
 	fieldsRead := func(fn *ssa.Function) map[string]ssa.Instruction {
 		out := map[string]ssa.Instruction{}
-		for _, b := range fn.Blocks {
+		for _, b := range blocksIP(fn) {
 			for _, in := range b.Instrs {
 				switch x := in.(type) {
 				case *ssa.FieldAddr:
@@ -834,7 +834,7 @@ func c10VRFProofWriters(c *Ctx) {
 			continue
 		}
 		var ups []ssa.Instruction
-		for _, b := range fn.Blocks {
+		for _, b := range blocksIP(fn) {
 			for _, in := range b.Instrs {
 				mu, ok := in.(*ssa.MapUpdate)
 				if !ok {
@@ -1224,7 +1224,7 @@ func c01Round4(c *Ctx, ix *Index) {
 		ok, nst := true, 0
 		site := c.P.Pos(fn.Pos())
 		for _, s := range ix.FieldStores[f] {
-			if s.Fn != fn {
+			if s.Fn != fn && !inHelpers(fn, s.Fn) { // a new helper of PrepareProposal is part of it (ip.go)
 				continue
 			}
 			nst++
@@ -1390,7 +1390,7 @@ func c05LoadedAccounts(c *Ctx) {
 	// the accumulator cache's accounts map is filled only with what Account() returned
 	nmu, okmu := 0, true
 	for _, fn := range c.P.FuncsInPkg("consensus/cometbft/apps/staking/state") {
-		for _, b := range fn.Blocks {
+		for _, b := range blocksIP(fn) {
 			for _, in := range b.Instrs {
 				mu, isMU := in.(*ssa.MapUpdate)
 				if !isMU || !loadsField(mu.Map, "accounts") {
@@ -1823,7 +1823,7 @@ func c03Round4(c *Ctx) {
 			}
 		}
 		var writes []ssa.Instruction
-		for _, b := range fn.Blocks {
+		for _, b := range blocksIP(fn) {
 			for _, in := range b.Instrs {
 				switch x := in.(type) {
 				case *ssa.MapUpdate:
@@ -1940,7 +1940,7 @@ func c06Round4(c *Ctx, ix *Index) {
 // round-4 rules written after the seeds of C07, C11, C12 and C13 (10..12) were missed.
 
 func keyFmtGlobals(fn *ssa.Function, out map[string]bool) {
-	for _, b := range fn.Blocks {
+	for _, b := range blocksIP(fn) {
 		for _, in := range b.Instrs {
 			for _, op := range in.Operands(nil) {
 				if op == nil || *op == nil {
@@ -2079,7 +2079,7 @@ func c13Round4(c *Ctx, ix *Index) {
 	c.WithRules(map[string]string{"C06.*": "C13.resolve"}, func() { c06SeqNoRules(c, ix) })
 	n := 0
 	for _, fn := range c.P.FuncsInPkg("storage/mkvs/db/pathbadger") {
-		for _, b := range fn.Blocks {
+		for _, b := range blocksIP(fn) {
 			for _, in := range b.Instrs {
 				mu, ok := in.(*ssa.MapUpdate)
 				if !ok {
